@@ -347,3 +347,19 @@ _ADD7 = {
 for _k, (_t, _x) in _ADD7.items():
     CLAIMS[_k]['technique'] += _t
     CLAIMS[_k]['text'] += _x
+
+# rules of DESIGN.md 12.13 (round 6)
+_ADD8 = {
+ 'C01': ('; R5', ' The R5 expansion rules (append cursor, stale aliases) run here as well.'),
+ 'C03': ('; loop-variable lint', ' Every counted loop of SRC uses its induction variable or visibly advances another cursor.'),
+ 'C07': ('; layout order of the growable arrays', ' Both allocation groups of ?LUMemInit create LUSUP, UCOL, LSUB, USUB in the order ?expand assumes.'),
+ 'C08': ('; relaxed-supernode capacity', ' As in C07.'),
+ 'C09': ('; scratch initialised before it is read', ' descendants[] is zeroed before the subtree sizes are accumulated; knobs[] goes through colamd_set_defaults.'),
+ 'C11': ('; start values of the running extremes', ' rcmin starts at bignum and rcmax at 0 in every pass.'),
+ 'C15': ('; ILU magnitude switches agree; marker_relax kinds', ' The three milu switches of ilu_?pivotL measure a candidate the same way; marker_relax[] is indexed by rows.'),
+ 'C17': ('; copy-out of the scalings', ' ?ldperm copies u and v out for every MC64 status.'),
+ 'C20': ('; LD agreement in ?gstrs incl. walking pointers', ' The right-hand-side block is addressed with ldb everywhere, also by the pointer that walks its columns.'),
+}
+for _k, (_t, _x) in _ADD8.items():
+    CLAIMS[_k]['technique'] += _t
+    CLAIMS[_k]['text'] += _x
